@@ -1010,6 +1010,83 @@ func (e *specEnv) call(n *ast.CallExpr) Val {
 				qs = append(qs, qf)
 			}
 			return Val{tBool, []string{and(qs...)}}
+		case "ufi", "ufb":
+			// ufi("name", args...) / ufb("name", args...): application of an uninterpreted function (Int / Bool result)
+			// to the flattened components of the arguments; nothing is known about it except that it is a function.
+			bl, ok := n.Args[0].(*ast.BasicLit)
+			if !ok {
+				e.errorf("%s: first argument must be a string literal", id.Name)
+				return bad(tInt)
+			}
+			var comps []string
+			for _, a := range n.Args[1:] {
+				v := e.eval(a)
+				for i, c := range v.C {
+					if fl := flatten(v.T); i < len(fl) && fl[i].Sort == "Bool" {
+						c = ite(c, "1", "0")
+					}
+					comps = append(comps, c)
+				}
+			}
+			res, rt := "Int", tInt
+			if id.Name == "ufb" {
+				res, rt = "Bool", tBool
+			}
+			head := e.t.eng.uf("uf!"+strings.Trim(bl.Value, "\""), len(comps), res)
+			return Val{rt, []string{head + " " + strings.Join(comps, " ") + ")"}}
+		case "allentries":
+			// allentries(m, func(k K, v V) bool {...}): the body holds for every entry of EVERY map of m's type in the
+			// heap (a type invariant of that map type; m itself only names the type).
+			mv := e.eval(n.Args[0])
+			mt, ok := under(mv.T).(*types.Map)
+			fl, ok2 := n.Args[1].(*ast.FuncLit)
+			if !ok || !ok2 || len(fl.Type.Params.List) != 2 || len(fl.Type.Params.List[0].Names) != 1 || len(fl.Type.Params.List[1].Names) != 1 {
+				e.errorf("allentries(m, func(k K, v V) bool {...})")
+				return Val{tBool, []string{"true"}}
+			}
+			if ncomps(mt.Key()) != 1 {
+				e.errorf("allentries: unsupported key type")
+				return Val{tBool, []string{"true"}}
+			}
+			kn, vn := fl.Type.Params.List[0].Names[0].Name, fl.Type.Params.List[1].Names[0].Name
+			e.t.nfr++
+			bm, bk := q(fmt.Sprintf("m!q%d", e.t.nfr)), q(fmt.Sprintf("k!q%d", e.t.nfr))
+			dn, ds := mapDomHeap(mt)
+			dom := sel(sel(e.t.heapGet(e.cur, dn, ds), bm), bk)
+			var vc []string
+			for _, c := range flatten(mt.Elem()) {
+				hn, hs := mapValHeap(mt, c.Suffix, c.Sort)
+				vc = append(vc, sel(sel(e.t.heapGet(e.cur, hn, hs), bm), bk))
+			}
+			sk, hk := e.vars[kn]
+			sv, hv := e.vars[vn]
+			e.vars[kn] = Val{mt.Key(), []string{bk}}
+			e.vars[vn] = Val{mt.Elem(), vc}
+			e.qvars = append(e.qvars, bm, bk)
+			body := e.funcBody(fl.Body)
+			e.qvars = e.qvars[:len(e.qvars)-2]
+			if hk {
+				e.vars[kn] = sk
+			} else {
+				delete(e.vars, kn)
+			}
+			if hv {
+				e.vars[vn] = sv
+			} else {
+				delete(e.vars, vn)
+			}
+			return Val{tBool, []string{fmt.Sprintf("(forall ((%s Int) (%s Int)) (! %s :pattern (%s) :pattern (%s)))", bm, bk,
+				imp(and(lt("0", bm), dom), body.C[0]), vc[0], dom)}}
+		case "emptymap":
+			// emptymap(m): the map m has no entries
+			mv := e.eval(n.Args[0])
+			mt, ok := under(mv.T).(*types.Map)
+			if !ok {
+				e.errorf("emptymap: not a map")
+				return Val{tBool, []string{"true"}}
+			}
+			dn, ds := mapDomHeap(mt)
+			return Val{tBool, []string{eq(sel(e.t.heapGet(e.cur, dn, ds), mv.C[0]), "((as const (Array Int Bool)) false)")}}
 		case "haskey":
 			m, k := e.eval(n.Args[0]), e.eval(n.Args[1])
 			mt := under(m.T).(*types.Map)
